@@ -232,6 +232,90 @@ def special_scenarios():
         w.dispose()
         scratch.drop(root)
     out += namespace_scenarios()
+    out += overlap_scenarios()
+    return out
+
+
+def overlap_scenarios():
+    """(i) members that give one task the same MAPPING value with its keys in another order hold one shared task; (j) a member that mounts another
+    member's pipeline `as ref` AND declares same-named tasks of its own: its dependency closures, and what forcing through the MultiChain marks
+    in it, are those of the member chain built alone"""
+    from pathlib import Path
+    from taskchain import Chain, Config, MultiChain, Parameter, Task
+
+    out = []
+    runs = []
+
+    class Fit(Task):
+        class Meta:
+            parameters = [Parameter('opt')]
+
+        def run(self, opt) -> dict:
+            runs.append('fit')
+            return opt
+
+    root = scratch.fresh('c13o')
+    try:
+        base = Path(root) / 'data'
+        a = Config(base, name='a', data={'tasks': [Fit], 'opt': {'lr': 0.1, 'sched': {'warm': 1, 'decay': [2, {'x': 1, 'y': 2}]}}})
+        b = Config(base, name='b', data={'tasks': [Fit], 'opt': {'sched': {'decay': [2, {'y': 2, 'x': 1}], 'warm': 1}, 'lr': 0.1}})
+        mc = MultiChain([a, b])
+        mc['a']['fit'].value
+        mc['b']['fit'].value
+        if mc['a']['fit'] is not mc['b']['fit'] or runs != ['fit']:
+            out.append(('identical tasks (a mapping value written with its keys in another order) are not shared', f'one object: {mc["a"]["fit"] is mc["b"]["fit"]}; runs {runs}'))
+    except Exception as e:  # noqa
+        out.append(('MultiChain over members with a mapping-valued parameter cannot be built / evaluated', f'{type(e).__name__}: {e}'))
+
+    class Raw(Task):
+        class Meta:
+            parameters = [Parameter('src')]
+
+        def run(self, src) -> int:
+            return src
+
+    class Clean(Task):
+        class Meta:
+            input_tasks = [Raw]
+
+        def run(self, raw) -> int:
+            return raw + 1
+
+    class Compare(Task):
+        class Meta:
+            input_tasks = ['clean', 'ref::clean']
+
+        def run(self) -> int:
+            return self.input_tasks['clean'].value * 100 + self.input_tasks['ref::clean'].value
+
+    try:
+        base = Path(root) / 'data2'
+
+        def first():
+            return Config(base, name='first', data={'tasks': [Raw, Clean], 'src': 1})
+
+        def second():
+            return Config(base, name='second', data={'tasks': [Raw, Clean, Compare], 'src': 2, 'uses': [Config(base, name='first', namespace='ref', data={'tasks': [Raw, Clean], 'src': 1})]})
+
+        def closures(ch):
+            return {n: (sorted(t.fullname if False else k for k, x in ch.tasks.items() if x in ch.dependent_tasks(n)), sorted(k for k, x in ch.tasks.items() if x in ch.required_tasks(n))) for n, t in ch.tasks.items()}
+        alone = closures(Chain(second()))
+        for order in ('first-second', 'second-first'):
+            cfgs = [first(), second()] if order == 'first-second' else [second(), first()]
+            mc = MultiChain(cfgs)
+            got = closures(mc['second'])
+            if got != alone:
+                diff = {n: (got.get(n), alone[n]) for n in alone if got.get(n) != alone[n]}
+                out.append(('dependency closures of a member differ from those of the chain built alone', f'members {order}: (in the MultiChain, alone) {diff}'))
+            mc['second']['compare'].value
+            mc.force('raw')
+            forced = sorted(n for n, t in mc['second'].tasks.items() if t.is_forced)
+            if forced != ['clean', 'compare', 'raw', 'ref::clean', 'ref::raw']:
+                out.append(('forcing through the MultiChain does not mark exactly the task and everything downstream of it', f'members {order}: force(raw) marks {forced} in the member that mounts the other one as `ref`'))
+    except Exception as e:  # noqa
+        out.append(('MultiChain whose member mounts another member and declares same-named tasks cannot be built / evaluated', f'{type(e).__name__}: {e}'))
+    finally:
+        scratch.drop(root)
     return out
 
 
